@@ -77,6 +77,16 @@ def build(case):
           'max_steps': case.get('max_steps', 30000)}
     if case.get('stall'):
         sc['stall'] = case['stall']
+    if case.get('via_proxy'):
+        ok = b'HTTP/1.1 200 Connection established\r\n\r\n'
+        c0 = sc['conns'][0]
+        c0['proxy'] = {'steps': [{'op': 'await_request', 'nth': 1},
+                                 {'op': 'reply', 'tmpl': ok.hex(), 'cuts': [],
+                                  'gaps': [0]}], 'then_server': True}
+        for st in c0['server']:
+            if st.get('op') == 'await_request':
+                st['nth'] = 2
+        sc['ws'] = dict(sc['ws'], proxies={'http': 'http://proxy.test:3128'})
     if case.get('app_echo'):
         sc['app'] = [{'when': {'name': 'text'},
                       'do': [{'op': 'send_text', 'text': 'loop-echo'}]}]
